@@ -3175,7 +3175,24 @@ impl PeerConnection {
 
     pub async fn recv(&self) -> Option<PeerConnectionEvent> {
         let mut rx = self.inner.event_rx.lock().await;
-        rx.recv().await
+        // The event sender lives inside the connection itself, so the channel
+        // never closes on its own: end the stream when the connection has been
+        // closed (after handing out what is still queued), otherwise a pending
+        // or later `recv()` would wait forever.
+        let mut signaling_rx = self.inner.signaling_state.subscribe();
+        loop {
+            if *signaling_rx.borrow_and_update() == SignalingState::Closed {
+                return rx.try_recv().ok();
+            }
+            tokio::select! {
+                ev = rx.recv() => return ev,
+                res = signaling_rx.changed() => {
+                    if res.is_err() {
+                        return None;
+                    }
+                }
+            }
+        }
     }
 
     /// Initialize a T.38 fax endpoint for the Image transceiver.
